@@ -25,6 +25,18 @@ func (fx *FnExec) loopContract(li *loopInfo) *loopC {
 			lc.blocking = l.Blocking
 		}
 	}
+	if li.autoInv != nil {
+		// the loop variable of a counting loop stays on its side of the literal it starts from (proved like any
+		// invariant: a body that assigns the variable otherwise fails the preservation obligation)
+		c := *li.autoInv
+		if top.con != nil {
+			c.Pkg = top.con.Pkg
+		} else if fx.fn.Pkg != nil {
+			c.Pkg = fx.fn.Pkg.Pkg.Path()
+		}
+		c.Tags = fx.e.autoTags("nopanic", fx.fn)
+		lc.invs = append(append([]*Clause{}, lc.invs...), &c)
+	}
 	return lc
 }
 
